@@ -31,6 +31,7 @@ class G:
         self.nbool = draw(st.integers(0, 2))
         self.loopvars = []
         self.lists = draw(st.booleans())      # tracked list variable _.l (flat, 3) and _.m (nested, 2x2)
+        self.fvar = draw(st.booleans())       # tracked fixed-point variable _.f (quarters; + and - only, so arithmetic is exact)
         self.counter = 0
         self.shared = []        # (loop id, max) of _range objects kept in a variable and still in scope
         self.budget = draw(st.integers(3, 12))
@@ -61,6 +62,8 @@ class G:
     def cond(self, depth=0):
         d = self.draw
         k = d(st.integers(0, 9))
+        if k == 5 and self.fvar and d(st.booleans()):
+            return ["fcmp", d(st.sampled_from(CMP)), d(st.integers(-6, 6))]
         if k <= 5 or depth >= 2:
             return ["cmp", d(st.sampled_from(CMP)), self.expr(2), self.expr(2)]
         if k == 6 and self.nbool:
@@ -88,6 +91,8 @@ class G:
         d = self.draw
         self.budget -= 1
         k = d(st.integers(0, 9)) if depth < 3 else 0
+        if k <= 3 and self.fvar and d(st.integers(0, 4)) == 0:
+            return ["setf", d(st.sampled_from("+-r")), d(st.integers(-6, 6))]
         if k <= 3:
             if self.lists and d(st.integers(0, 2)) == 0:
                 if d(st.booleans()):
@@ -116,6 +121,9 @@ class G:
             body = self.block(depth + 1)
             brk = self.cond() if d(st.booleans()) else None
             pos = d(st.integers(0, len(body)))
+            if d(st.integers(0, 3)) == 0:
+                brk = ["pubk", cid, d(st.integers(0, 2))]      # a PUBLIC break condition: the plain iteration counter reached c
+                pos = d(st.integers(1, len(body))) if body else 0        # ... after at least one statement of the body
             return ["while", c, m, body, brk, pos, cid]
         lv = "i%d" % self.counter
         fid = self.counter
@@ -179,7 +187,7 @@ def draw_case(draw):
                  # the flat list as a pysnark Array (element writes in place, like a list; native twin keeps a list)
                  "l_is_array": draw(st.booleans())}
     return {"nvars": g.nvars, "nin": g.nin, "nbool": g.nbool, "init": init, "init_secret": init_secret,
-            "body": body, "a": va, "b": vb, "bitlength": 32, "lists": lists, "in_function": draw(st.integers(0, 3)) == 0, "explicit_ctx": draw(st.integers(0, 3)) == 0,
+            "body": body, "a": va, "b": vb, "bitlength": 32, "lists": lists, "fvar": draw(st.integers(-8, 8)) if g.fvar else None, "in_function": draw(st.integers(0, 3)) == 0, "explicit_ctx": draw(st.integers(0, 3)) == 0,
             "names": [draw(st.sampled_from(["x%d", "x%d", "_x%d", "__x%d", "x%d_", "X%d", "acc%d", "_%d"])) % i for i in range(g.nvars)]}
 
 
@@ -219,6 +227,8 @@ def r_cond(c, obl):
             # at least one side must be a traced value for the comparison to be traced
             return "(Z + %s %s %s)" % (a, c[1], b)
         return "T(%s %s %s)" % (a, c[1], b)
+    if t == "fcmp":
+        return ("(_.f %s (%s))" if obl else "T(_.f %s (%s))") % (c[1], repr(c[2] / 4.0))
     if t == "bool":
         return "q%d" % c[1] if obl else "T(q%d == 1)" % c[1]
     if t == "raw":
@@ -270,7 +280,10 @@ def _render(case, obl):
 
     def stmt(s, ind):
         t = s[0]
-        if t == "set":
+        if t == "setf":
+            c = repr(s[2] / 4.0)
+            emit(ind, "_.f = " + {"+": "_.f + (%s)", "-": "_.f - (%s)", "r": "(%s) - _.f"}[s[1]] % c)
+        elif t == "set":
             emit(ind, "_.x%d = %s" % (s[1], r_expr(s[2], obl)))
         elif t == "setl":
             emit(ind, "_.l[%d] = %s" % (s[1], r_expr(s[2], obl)))
@@ -319,7 +332,12 @@ def _render(case, obl):
             else:
                 emit(ind, "while %s != %d and %s:" % (k, m, r_cond(c, obl)))
             block(body[:pos], ind + 1)
-            if brk is not None:
+            if brk is not None and brk[0] == "pubk":
+                if obl:
+                    emit(ind + 1, "_breakif(k%d == %d%s)" % (brk[1], brk[2], CX2))
+                else:
+                    emit(ind + 1, "if k%d == %d: break" % (brk[1], brk[2]))
+            elif brk is not None:
                 if obl:
                     emit(ind + 1, "_breakif(B(%s)%s)" % (r_cond(brk, obl), CX2))
                 else:
@@ -371,6 +389,8 @@ def run_native(case, vec):
     if case.get("lists"):
         ns["_"].l = list(case["lists"]["l"])
         ns["_"].m = [list(r) for r in case["lists"]["m"]]
+    if case.get("fvar") is not None:
+        ns["_"].f = case["fvar"] / 4.0
     for i, v in enumerate(vec["ins"]):
         ns["a%d" % i] = v
     for i, v in enumerate(vec["bools"]):
@@ -381,11 +401,13 @@ def run_native(case, vec):
     out = [getattr(ns["_"], vname(case, i)) for i in range(case["nvars"])]
     if case.get("lists"):
         out += list(ns["_"].l) + [x for r in ns["_"].m for x in r]
+    if case.get("fvar") is not None:
+        out.append(int(ns["_"].f * 16))        # representation at resolution 4
     return out, outcomes
 
 
 def run_oblivious(case, vec, p):
-    e = env.reset(p, case["bitlength"], 0)
+    e = env.reset(p, case["bitlength"], 4 if case.get("fvar") is not None else 0)
     rt, bo, br = e.rt, e.bo, e.br
 
     def B(c):
@@ -408,6 +430,8 @@ def run_oblivious(case, vec, p):
         if L.get("l_is_array"):
             ctx_obj.l = e.ar.Array(ctx_obj.l)
         ctx_obj.m = [[rt.PrivVal(v) if s_ else v for v, s_ in zip(r, rs)] for r, rs in zip(L["m"], L["msec"])]
+    if case.get("fvar") is not None:
+        ctx_obj.f = e.fx.PrivValFxp(case["fvar"] / 4.0)
     for i, v in enumerate(vec["ins"]):
         ns["a%d" % i] = rt.PrivVal(v)
     for i, v in enumerate(vec["bools"]):
@@ -433,6 +457,8 @@ def run_oblivious(case, vec, p):
     if case.get("lists"):
         lobj = getattr(ctx, "l")
         objs += list(lobj.arr if isinstance(lobj, e.ar.Array) else lobj) + [x for r in getattr(ctx, "m") for x in r]
+    if case.get("fvar") is not None:
+        objs.append(getattr(ctx, "f"))
     for x in objs:
         t = ir.classify(e, x)
         finals.append(ir.pyval(x, t) if t in "IBF" else x)
@@ -506,7 +532,7 @@ def kinds_in(case):
                     walk(s[2], depth + 1)
             elif s[0] == "while":
                 if s[4] is not None:
-                    out.add("breakif")
+                    out.add("breakif" if s[4][0] != "pubk" else "breakif-public-condition")
                 walk(s[3], depth + 1)
             elif s[0] == "for":
                 for k_ in (s[1] or {}):
@@ -525,6 +551,8 @@ def kinds_in(case):
         out.add("in-function-with-own-context")
     if case.get("explicit_ctx"):
         out.add("explicit-ctx-argument")
+    if case.get("fvar") is not None:
+        out.add("fixed-point-variable")
     src = render(case, True)
     if "lambda: (" in src or "(lambda:" in src:
         out.add("lazy-ite")
